@@ -290,6 +290,22 @@ class World:
             for mn in UUID_MODULES:
                 importlib.import_module(mn).uuid = ushim
 
+    def reset_entropy(self, name):
+        """Install a named entropy stream from its beginning (replicas of one history
+        must see the same random identifiers)."""
+        self._rngs.pop('entropy.' + name, None)
+        self._rngs.pop('entropy.uuid.' + name, None)
+        rshim = RandomShim(self.rng('entropy.' + name))
+        ushim = UuidShim(self.rng('entropy.uuid.' + name))
+        for s in self._shims:
+            self.entropy_draws += s.draws
+        self._shims = [rshim, ushim]
+        if self._installed:
+            for mn in RANDOM_MODULES:
+                importlib.import_module(mn).random = rshim
+            for mn in UUID_MODULES:
+                importlib.import_module(mn).uuid = ushim
+
     def set_tz(self, tz):
         self.tz = tz
         if self._installed:
